@@ -481,6 +481,204 @@ func steerSubscribeFails(workers int, failIdx int, emit func(string)) {
 	flushNotes(e.rec, emit)
 }
 
+// steerSameGroup: two submissions that belong to the same worker group by the documented
+// rules (same resource; different resources of one group template; a wildcard pattern in a
+// mounted sub-mux whose group tag sits behind the mount point; the root resource; a request
+// and a With callback). The first callback blocks; the second is submitted meanwhile and must
+// not start before the first has returned.
+func steerSameGroup(workers int, emit func(string)) {
+	if atomic.LoadInt32(&poolHung) != 0 {
+		return
+	}
+	e := &steerEnv{rec: &recorder{byRep: map[string]int{}, grp: map[int]string{}}, g: &gateCtl{holds: map[int]*hold{}}}
+	setHooks(e.rec.add, e.g.fn)
+	defer e.close()
+	emit("reset")
+	var mu sync.Mutex
+	var blockCh chan struct{}
+	entered := make(chan int, 16)
+	handler := func(r res.CallRequest) {
+		var p struct {
+			ID    int  `json:"id"`
+			Block bool `json:"block"`
+		}
+		r.ParseParams(&p)
+		e.rec.add("h.cbstart", "", p.ID)
+		entered <- p.ID
+		if p.Block {
+			mu.Lock()
+			ch := blockCh
+			mu.Unlock()
+			select {
+			case <-ch:
+			case <-time.After(2 * time.Second):
+			}
+		}
+		e.rec.add("h.cbend", "", p.ID)
+		r.OK(nil)
+	}
+	e.s = res.NewService("pool")
+	e.s.SetLogger(svc.NopLogger{})
+	e.s.SetWorkerCount(workers)
+	e.s.Handle("", res.Call("do", handler))
+	e.s.Handle("r.$id", res.Call("do", handler))
+	e.s.Handle("g.$id.$x", res.Call("do", handler), res.Group("grp.${id}"))
+	e.s.Route("sub", func(m *res.Mux) {
+		m.Handle("$type.$id.>", res.Group("mg.${id}"), res.Call("do", handler))
+		m.Route("deep", func(m2 *res.Mux) {
+			m2.Handle("$a.$b", res.Group("dg.${b}"), res.Call("do", handler))
+		})
+	})
+	e.conn = recconn.New()
+	served := make(chan struct{})
+	e.s.SetOnServe(func(*res.Service) { close(served) })
+	e.done = make(chan error, 1)
+	go func() { e.done <- e.s.Serve(e.conn) }()
+	if waitCh(served, "serve") != nil {
+		return
+	}
+	deliver := func(subj, group string, block bool) int {
+		e.id++
+		id := e.id
+		reply := fmt.Sprintf("_INBOX.sg%d", id)
+		e.rec.mu.Lock()
+		e.rec.grp[id] = group
+		e.rec.byRep[reply] = id
+		e.rec.mu.Unlock()
+		e.conn.Deliver(subj, reply, []byte(fmt.Sprintf(`{"params":{"id":%d,"block":%v}}`, id, block)))
+		return id
+	}
+	pairs := [][3]string{
+		{"call.pool.r.1.do", "call.pool.r.1.do", "pool.r.1"},
+		{"call.pool.do", "call.pool.do", "pool"},
+		{"call.pool.g.7.a.do", "call.pool.g.7.b.do", "grp.7"},
+		{"call.pool.sub.a.7.x.do", "call.pool.sub.b.7.y.z.do", "mg.7"},
+		{"call.pool.sub.deep.p.9.do", "call.pool.sub.deep.q.9.do", "dg.9"},
+	}
+	for _, pr := range pairs {
+		mu.Lock()
+		blockCh = make(chan struct{})
+		ch := blockCh
+		mu.Unlock()
+		first := deliver(pr[0], pr[2], true)
+		ok := false
+		for !ok {
+			select {
+			case id := <-entered:
+				ok = id == first
+			case <-time.After(2 * time.Second):
+				ok = true
+			}
+		}
+		second := deliver(pr[1], pr[2], false)
+		// also a With callback on the first resource: it belongs to the same group
+		rid := pr[0][len("call.") : len(pr[0])-len(".do")]
+		e.id++
+		wid := e.id
+		e.rec.mu.Lock()
+		e.rec.grp[wid] = pr[2]
+		e.rec.mu.Unlock()
+		e.rec.add("h.submit", pr[2], wid)
+		withDone := make(chan struct{})
+		if e.s.With(rid, func(res.Resource) {
+			e.rec.add("h.cbstart", "", wid)
+			e.rec.add("h.cbend", "", wid)
+			close(withDone)
+		}) != nil {
+			close(withDone)
+		}
+		time.Sleep(15 * time.Millisecond) // were they not serialised, they would have started by now
+		close(ch)
+		deadline := time.After(2 * time.Second)
+		for seen := false; !seen; {
+			select {
+			case id := <-entered:
+				seen = id == second
+			case <-deadline:
+				seen = true
+			}
+		}
+		select {
+		case <-withDone:
+		case <-time.After(2 * time.Second):
+		}
+	}
+	e.rec.add("h.quiescent", "", 1)
+	e.shutdown()
+	flushNotes(e.rec, emit)
+}
+
+// steerExpiryDuringShutdown: a query event expires while Shutdown is waiting for a callback of
+// the same group that is still running. The nil call belongs to that group: it may not run
+// beside the callback (it is refused, or it waits).
+func steerExpiryDuringShutdown(workers int, emit func(string)) {
+	if atomic.LoadInt32(&poolHung) != 0 {
+		return
+	}
+	e := &steerEnv{rec: &recorder{byRep: map[string]int{}, grp: map[int]string{}, rgroup: map[string]string{}}, g: &gateCtl{holds: map[int]*hold{}}}
+	setHooks(e.rec.add, e.g.fn)
+	defer e.close()
+	emit("reset")
+	e.s = res.NewService("pool")
+	e.s.SetLogger(svc.NopLogger{})
+	e.s.SetWorkerCount(workers)
+	e.s.SetQueryEventDuration(30 * time.Millisecond)
+	e.s.Handle("r.$id", res.Call("do", func(r res.CallRequest) { r.OK(nil) }))
+	e.conn = recconn.New()
+	served := make(chan struct{})
+	e.s.SetOnServe(func(*res.Service) { close(served) })
+	e.done = make(chan error, 1)
+	go func() { e.done <- e.s.Serve(e.conn) }()
+	if waitCh(served, "serve") != nil {
+		return
+	}
+	const rname = "pool.r.1"
+	e.rec.mu.Lock()
+	e.rec.rgroup[rname] = rname
+	e.rec.mu.Unlock()
+	// the callback that starts the query event, then keeps the group busy
+	unblock := make(chan struct{})
+	busy := make(chan struct{})
+	e.id++
+	id := e.id
+	e.rec.mu.Lock()
+	e.rec.grp[id] = rname
+	e.rec.mu.Unlock()
+	e.rec.add("h.submit", rname, id)
+	e.s.With(rname, func(r res.Resource) {
+		e.rec.add("h.cbstart", "", id)
+		r.QueryEvent(func(q res.QueryRequest) {
+			if q != nil {
+				return
+			}
+			e.rec.mu.Lock()
+			ids := e.rec.nilIDs[rname]
+			nid := 0
+			if len(ids) > 0 {
+				nid = ids[0]
+				e.rec.nilIDs[rname] = ids[1:]
+			}
+			e.rec.mu.Unlock()
+			e.rec.add("h.cbstart", "", nid)
+			time.Sleep(time.Millisecond)
+			e.rec.add("h.cbend", "", nid)
+		})
+		close(busy)
+		<-unblock
+		e.rec.add("h.cbend", "", id)
+	})
+	waitCh(busy, "busy callback")
+	from := e.numNotes()
+	sdDone := make(chan bool, 1)
+	go func() { sdDone <- e.shutdown() }()
+	e.waitNote("c.broadcast", from)
+	time.Sleep(80 * time.Millisecond) // the query event expires while the service is stopping
+	close(unblock)
+	<-sdDone
+	time.Sleep(5 * time.Millisecond)
+	flushNotes(e.rec, emit)
+}
+
 func steerAll(emit func(string)) {
 	for _, w := range []int{1, 2, 3} {
 		steerLateSubmit(w, "slow", emit)
@@ -490,6 +688,8 @@ func steerAll(emit func(string)) {
 		steerSignalGap(w, emit)
 		steerRestartStale(w, emit)
 		steerServeDuringShutdown(w, emit)
+		steerSameGroup(w, emit)
+		steerExpiryDuringShutdown(w, emit)
 		steerShutdownInOnServe(w, emit)
 		steerSubscribeFails(w, 0, emit)
 		steerSubscribeFails(w, 2, emit)
